@@ -173,7 +173,7 @@ Definition invert_circular (r : region) (n : Z) : out (list region) :=
   let ss := minimize r in
   let rr := invert_linear r n in
   match ss with
-  | [] => Panic (* ss[0] *)
+  | [] => Ok rr (* len(ss) == 0: nothing selected, nothing to merge across the origin *)
   | s0 :: _ =>
     if (fst s0 =? 0) || (snd (last ss s0) =? n) then Ok rr
     else
